@@ -165,12 +165,17 @@ type svcClient struct {
 	responses   map[uint32]interface{} // id -> response value
 	order       []uint32
 	svcOpen     map[uint32]bool // service-originated request ids we have not answered yet
+	svcKey      map[uint32]int  // the build key a service-originated callback request belongs to
+	cancelSnap  map[uint32][]uint32 // our cancel request -> callback requests of that key that were unanswered when it was sent
+	disposeSent map[int]bool
 	deferred    []deferredAns
 	owed        int // service requests received and never answered (stdin closed)
 	closed      bool
 	viol        *Violation
 	log         []string
 	svcRequests int
+	cancelDuringCallback int
+	hold        bool // the host sits on its answers to callbacks for a while (a slow plugin)
 	disposedAck map[int]bool
 	ctxReady    map[int]bool // the response to the context-creating build request has arrived
 	root        string
@@ -188,6 +193,24 @@ func (c *svcClient) request(desc string, v map[string]interface{}) uint32 {
 	c.outstanding[id] = desc
 	c.order = append(c.order, id)
 	c.log = append(c.log, fmt.Sprintf("-> #%d %s", id, desc))
+	if cmd, _ := v["command"].(string); cmd == "dispose" {
+		if k, ok := v["key"].(int); ok {
+			c.disposeSent[k] = true
+		}
+	} else if cmd == "cancel" {
+		// callbacks of this context that wait for our answer right now: the build that
+		// issued them is running and cannot end before we answer
+		if k, ok := v["key"].(int); ok && !c.disposeSent[k] {
+			var ids []uint32
+			for sid := range c.svcOpen {
+				if c.svcKey[sid] == k {
+					ids = append(ids, sid)
+				}
+			}
+			sort.Slice(ids, func(i, j int) bool { return ids[i] < ids[j] })
+			c.cancelSnap[id] = ids
+		}
+	}
 	c.st.Send(encPacket(id, true, v))
 	return id
 }
@@ -244,6 +267,11 @@ func (c *svcClient) handle(b []byte) {
 			return
 		}
 		c.svcOpen[id] = true
+		if k, ok := m["key"].(int); ok && (cmd == "on-start" || cmd == "on-resolve" || cmd == "on-load") {
+			c.svcKey[id] = k
+		} else {
+			c.svcKey[id] = -1
+		}
 		c.svcRequests++
 		c.log = append(c.log, fmt.Sprintf("<- service request #%d %s", id, cmd))
 		var resp map[string]interface{}
@@ -262,7 +290,7 @@ func (c *svcClient) handle(b []byte) {
 						"importer": "", "namespace": "file", "resolveDir": c.root, "kind": "import-statement", "with": map[string]interface{}{}})
 				}
 			}
-		case "ping":
+		case "ping", "serve-request":
 			resp = map[string]interface{}{}
 		default:
 			resp = map[string]interface{}{}
@@ -272,7 +300,7 @@ func (c *svcClient) handle(b []byte) {
 			c.owed++
 			continue
 		}
-		if c.g.n(3) == 0 {
+		if c.hold || c.g.n(3) == 0 {
 			c.deferred = append(c.deferred, deferredAns{id, ans}) // answer later, possibly out of order
 		} else {
 			delete(c.svcOpen, id)
@@ -323,6 +351,17 @@ func (c *svcClient) checkResponse(id uint32, desc string, val interface{}) {
 				c.fail("service-bad-response", "build response #%d has neither errors nor error: %v", id, m)
 			}
 		}
+	case strings.HasPrefix(desc, "cancel"):
+		var key int
+		fmt.Sscanf(desc, "cancel key=%d", &key)
+		for _, sid := range c.cancelSnap[id] {
+			if c.svcOpen[sid] && !c.disposeSent[key] {
+				c.fail("service-cancel-answered-while-build-running", "the response to cancel (#%d, key %d) arrived while callback request #%d of that context, received before the cancel was sent, still waits for the host's answer: the build it belongs to cannot have ended", id, key, sid)
+			}
+		}
+		if len(c.cancelSnap[id]) > 0 {
+			c.cancelDuringCallback++
+		}
 	case strings.HasPrefix(desc, "rebuild-after-dispose"):
 		if _, ok := m["error"]; !ok {
 			c.fail("service-work-after-dispose", "rebuild on a key whose dispose had already been answered succeeded: %v", m)
@@ -337,6 +376,9 @@ func (c *svcClient) checkResponse(id uint32, desc string, val interface{}) {
 
 // pump reads until every outstanding request of ours is answered (or the stream ends).
 func (c *svcClient) pump(all bool) bool {
+	if all {
+		c.hold = false
+	}
 	for c.viol == nil && len(c.outstanding) > 0 {
 		b, got, ok := c.st.TryRecv()
 		if !ok {
@@ -346,7 +388,7 @@ func (c *svcClient) pump(all bool) bool {
 			c.handle(b)
 			continue
 		}
-		if len(c.deferred) > 0 {
+		if len(c.deferred) > 0 && !c.hold {
 			c.flushDeferred()
 			continue
 		}
@@ -359,7 +401,9 @@ func (c *svcClient) pump(all bool) bool {
 		}
 		c.handle(b)
 	}
-	c.flushDeferred()
+	if !c.hold {
+		c.flushDeferred()
+	}
 	return true
 }
 
@@ -374,7 +418,7 @@ func scenarioC20Service(rc *RunCtx) *Violation {
 	p.WriteTo(d, false)
 	abrupt := g.n(4) == 0 // close stdin at an arbitrary point instead of gracefully
 	st := &verifsim.Stdio{Frag: verifsim.NewTape(uint64(g.n(1<<30)), 1<<16)}
-	c := &svcClient{st: st, g: g, outstanding: map[uint32]string{}, responses: map[uint32]interface{}{}, svcOpen: map[uint32]bool{}, disposedAck: map[int]bool{}, ctxReady: map[int]bool{}, root: p.Root}
+	c := &svcClient{st: st, g: g, outstanding: map[uint32]string{}, responses: map[uint32]interface{}{}, svcOpen: map[uint32]bool{}, svcKey: map[uint32]int{}, cancelSnap: map[uint32][]uint32{}, disposeSent: map[int]bool{}, disposedAck: map[int]bool{}, ctxReady: map[int]bool{}, root: p.Root}
 
 	entries := []interface{}{}
 	for _, e := range p.EntryPaths() {
@@ -401,6 +445,8 @@ func scenarioC20Service(rc *RunCtx) *Violation {
 
 	nSteps := 2 + g.n(8)
 	var desc []string
+	var httpWG sync.WaitGroup
+	var httpResults []string
 	svcReturned := false
 	var cutAt int = -1
 	if abrupt {
@@ -417,11 +463,67 @@ func scenarioC20Service(rc *RunCtx) *Violation {
 		})
 		key := 1
 		var contexts []int
+		served := false
 		for step := 0; step < nSteps && c.viol == nil; step++ {
 			if step == cutAt {
 				break
 			}
-			switch g.n(10) {
+			if g.n(6) == 0 {
+				c.hold = !c.hold
+				desc = append(desc, fmt.Sprintf("hold=%v", c.hold))
+				if !c.hold {
+					c.flushDeferred()
+				}
+			}
+			switch g.n(15) {
+			case 10, 12, 13, 14:
+				// burst: several operations on one context sent back to back, without
+				// waiting for any response in between (rebuild, cancel, dispose, watch ...)
+				if len(contexts) > 0 {
+					k := contexts[g.n(len(contexts))]
+					n := 2 + g.n(3)
+					var names []string
+					for i := 0; i < n; i++ {
+						op := []string{"rebuild", "cancel", "dispose", "rebuild", "cancel"}[g.n(5)]
+						if i == 0 || (op == "dispose" && i < n-1) {
+							op = "rebuild" // a burst starts with a rebuild; dispose only comes last
+						}
+						name := op
+						if op == "dispose" && c.ctxReady[k] {
+							name = "dispose-ready"
+						}
+						if op == "rebuild" && c.disposedAck[k] {
+							name = "rebuild-after-dispose"
+						}
+						c.request(fmt.Sprintf("%s key=%d", name, k), map[string]interface{}{"command": op, "key": k})
+						names = append(names, op)
+					}
+					desc = append(desc, fmt.Sprintf("burst(%d:%s)", k, strings.Join(names, "+")))
+					rc.Probe("service_burst")
+				}
+			case 11:
+				// serve over the protocol, with request notifications; a second client task
+				// fetches pages over the simulated network meanwhile
+				if len(contexts) > 0 && !served {
+					k := contexts[g.n(len(contexts))]
+					served = true
+					c.request(fmt.Sprintf("serve key=%d", k), map[string]interface{}{"command": "serve", "key": k, "host": "127.0.0.1", "onRequest": g.n(3) != 0})
+					desc = append(desc, fmt.Sprintf("serve(%d)", k))
+					nGets := 1 + g.n(3)
+					var gaps []time.Duration
+					for i := 0; i < nGets; i++ {
+						gaps = append(gaps, []time.Duration{80 * time.Millisecond, 400 * time.Millisecond, time.Second}[g.n(3)])
+					}
+					httpWG.Add(1)
+					verifsim.Go(func() {
+						defer httpWG.Done()
+						for _, gap := range gaps {
+							verifsim.Sleep(gap)
+							res := httpOnce(8000, "GET", "/m0.js", 0)
+							httpResults = append(httpResults, res)
+						}
+					})
+				}
 			case 0, 1:
 				c.request(fmt.Sprintf("build key=%d", key), buildReq(key, false, g.n(2) == 0))
 				desc = append(desc, "build")
@@ -465,7 +567,7 @@ func scenarioC20Service(rc *RunCtx) *Violation {
 				if len(contexts) > 0 && !abrupt && g.n(2) == 0 {
 					// (graceful sessions only: a watching context that nobody disposes polls forever)
 					k := contexts[g.n(len(contexts))]
-					c.request(fmt.Sprintf("watch key=%d", k), map[string]interface{}{"command": "watch", "key": k})
+					c.request(fmt.Sprintf("watch key=%d", k), map[string]interface{}{"command": "watch", "key": k, "delay": watchDelays[g.n(len(watchDelays))]})
 					desc = append(desc, fmt.Sprintf("watch(%d)", k))
 					// an edit that a watching context will pick up
 					m := p.Mods[0]
@@ -518,13 +620,18 @@ func scenarioC20Service(rc *RunCtx) *Violation {
 		}
 		verifsim.Yield("harness", "wait<")
 		wg.Wait()
+		httpWG.Wait()
 		verifsim.Yield("harness", "wait>")
 	})
+	for _, r := range httpResults {
+		rc.Probe("service_serve_http_" + strings.Fields(r)[0])
+	}
 	rc.Stats.Builds++
 	rc.Note(fmt.Sprintf("svc:%s abrupt=%v cut=%d", strings.Join(desc, ","), abrupt, cutAt))
 	rc.Sample("service_session", map[string]interface{}{"requests": desc, "abrupt_eof": abrupt, "log_head": head(c.log, 40), "bytes_in": st.BytesIn, "bytes_out": st.BytesOut, "fragmented_sends": st.ShortReads})
 	rc.Probe("service_session")
 	rc.Stats.Probes["service_requests_from_service"] += c.svcRequests
+	rc.Stats.Probes["service_cancel_while_callback_pending"] += c.cancelDuringCallback
 	rc.Stats.Probes["short_stdin_read"] += st.ShortReads
 	rc.Stats.Probes["coalesced_stdin_read"] += st.Coalesced
 	if abrupt {
